@@ -321,6 +321,7 @@ ExploreStats explore(Kind &K, const std::string &key, int depth) {
     if (frontier.empty()) vf::count("bfs.state_space_closed_within_depth_bound");
     vf::S().states += st.states;
     vf::S().transitions += st.transitions;
+    vf::S().evals += st.transitions;     // evaluations = calls executed on live objects (each compared with a fresh object)
     vf::S().traces_validated += st.validated;
     vf::count("bfs.merges", st.merges);
     vf::count("bfs.merges_validated_by_one_step_bisimulation", st.merges_validated);
